@@ -12,6 +12,27 @@
     (what `getCacheTables`, `resetArchetype` rely on when they read `tables[0]` unguarded).
   `createArchetype` takes `SInv` to `SInvMid` (+ every other archetype settled), `createTable`
   on the unsettled archetype restores `SInv`.
+
+  Deviations from the design's field list (all forced by the model):
+  * `maskReg` (every mask bit is a registered component) is added: it makes
+    `comps = mask.toList kinds.length` stable under `registerComponent`;
+  * `relCols` (every relation a table lists names one of its relation columns) is added; the
+    stronger `relIDs.length = numRel` is FALSE in reachable states (a relation list may name the
+    same relation component twice, see Ark/Props/C01Struct.lean §7);
+  * `root` (table 0 belongs to archetype 0, the archetype of the empty mask) is added so that
+    the creation call `findOrCreateTableAdd 0 Mask.empty …` is an instance of the general one;
+  * `nonRel` is split into `nonRelLe` (`≤ 1`, in `SInvMid`) and `settled` (`= 1`, in `SInv`).
+  A third, independent invariant `RInv` (the relation indices `relationTables`/`targetTables` of
+  every archetype = `Archetype.IndexInv` against the targets stored in the world's tables) is
+  needed exactly where `getTable` walks a relation index (2e for archetypes with relations).
+
+  Main results: `sinv_init`, `RInv.init`; `SInv.registerComponent` (2a); `SInv.createArchetype`
+  (2b); `SInv.findOrCreateArch` (2c); `createTable_eq` / `createTable_ok` (decomposition into
+  checks, storage part, cache part), `SInvMid.createTable` (2d, result record `CreatedTable`),
+  `SInvMid.createTable_total` (success under `CacheRelsOK`); `getTable_state`,
+  `getTable_some_mem` (2e); `SInv.findOrCreateTableAdd_of_ok(_rinv)` (3, general, on success),
+  `SInv.findOrCreateTableAdd_spec(_new)` (3, total, relation-free case),
+  `findOrCreateTableAdd_reject`.
 -/
 import Ark.Model.World
 import Ark.Proofs.TableIDs
@@ -491,12 +512,12 @@ theorem relCheck_cases (r : RelID) (w : World) :
       ∃ (k : PanicKind), relCheck r w = .panic k w) := by
   unfold relCheck checkRelationComponent checkRelationTarget M.bind
   cases h1 : w.isRelComp r.comp
-  · exact Or.inr ⟨by simp [h1], .notRelation, by simp [h1]⟩
+  · exact Or.inr ⟨by simp, .notRelation, by simp [h1]⟩
   · cases h2 : r.target.isZero
     · cases h3 : w.alive r.target
-      · exact Or.inr ⟨by simp [h2, h3], .deadTarget, by simp [h1, h2, h3]⟩
-      · exact Or.inl ⟨rfl, Or.inr rfl, by simp [h1, h2, h3]⟩
-    · exact Or.inl ⟨rfl, Or.inl rfl, by simp [h1, h2]⟩
+      · exact Or.inr ⟨by simp, .deadTarget, by simp [h1, h3]⟩
+      · exact Or.inl ⟨rfl, Or.inr rfl, by simp [h1, h3]⟩
+    · exact Or.inl ⟨rfl, Or.inl rfl, by simp [h1]⟩
 
 /-- the check loop never changes the state; it succeeds exactly when all relations are valid -/
 theorem relChecks_cases (rels : List RelID) (w : World) :
@@ -1005,6 +1026,127 @@ theorem getElem?_set_eq {α : Type} (l : List α) (x : α) (i t : Nat) (hi : i <
   · subst h; rw [if_pos rfl]; exact List.getElem?_set_self hi
   · rw [if_neg h]; exact List.getElem?_set_ne (fun e => h e.symm)
 
+/-! ## the relation-index invariant (`relationTables` / `targetTables` of every archetype) -/
+
+namespace World
+
+/-- the relation index of an archetype only lists active tables of that archetype -/
+def RelIndexSound (A : Archetype) : Prop :=
+  ∀ (i g : Nat) (ts : TableIDs), AL.find? (A.relationTables.getD i []) g = some ts →
+    ∀ (t : Nat), t ∈ ts.tables → t ∈ A.tables.tables
+
+end World
+
+/-- the archetype index invariant only looks at the targets of the archetype's own tables -/
+theorem Archetype.IndexInv.congr_tgt {a : Archetype} {tgt tgt' : Nat → List Ent}
+    (h : a.IndexInv tgt) (he : ∀ (t : Nat), t ∈ a.tables.tables → tgt' t = tgt t) :
+    a.IndexInv tgt' :=
+  { toStruct := h.toStruct
+    toMapsInv := h.toMapsInv.congr
+      (fun i _ g t => by
+        unfold Archetype.relP
+        constructor
+        · rintro ⟨h1, h2⟩; exact ⟨h1, by rw [he t h1]; exact h2⟩
+        · rintro ⟨h1, h2⟩; exact ⟨h1, by rw [he t h1] at h2; exact h2⟩)
+      (fun g t => by
+        unfold Archetype.tgtP
+        constructor
+        · rintro ⟨h1, i, h2, h3⟩; exact ⟨h1, i, h2, by rw [he t h1]; exact h3⟩
+        · rintro ⟨h1, i, h2, h3⟩; exact ⟨h1, i, h2, by rw [he t h1] at h3; exact h3⟩) }
+
+/-- **RInv**: every archetype's relation indices are exactly its active tables, keyed by the
+    relation targets stored in the tables (`IndexInv` of `ArchIndex`, instantiated with the
+    world's tables). -/
+def RInv (w : World) : Prop :=
+  ∀ (a : Nat) (A : Archetype), w.archetypes[a]? = some A → A.IndexInv (fun t => (w.tbl t).targets)
+
+/-- under `IndexInv` the relation index lists only active tables -/
+theorem Archetype.IndexInv.relIndexSound {A : Archetype} {tgt : Nat → List Ent} (h : A.IndexInv tgt) :
+    RelIndexSound A := by
+  intro i g ts hf t ht
+  cases hi : A.isRel.getD i false with
+  | false => rw [h.nonRel i hi] at hf; cases hf
+  | true => exact (((h.rel i hi).mem_of_find? hf t).1 ht).1
+
+namespace RInv
+
+theorem congr {w w' : World} (h : RInv w) (ha : w'.archetypes = w.archetypes)
+    (ht : w'.tables = w.tables) : RInv w' := by
+  intro a A hA
+  rw [ha] at hA
+  have : (fun t => (w'.tbl t).targets) = fun t => (w.tbl t).targets := by
+    funext t; simp only [tbl, ht]
+  rw [this]; exact h a A hA
+
+theorem init (cap rel maxComps : Nat) : RInv (World.init cap rel maxComps) := by
+  intro a A hA
+  have h0 : (World.init cap rel maxComps).archetypes = [Archetype.new 0 Mask.empty [] [] [] [0]] := rfl
+  rw [h0] at hA
+  obtain ⟨rfl, rfl⟩ := getElem?_singleton_some hA
+  have hi := Archetype.indexInv_new 0 Mask.empty [] [] [] rfl
+    (fun t => ((World.init cap rel maxComps).tbl t).targets)
+  have := hi.addTable 0 [] (by simp [Archetype.new, TableIDs.ofList]) (by simp [Archetype.new])
+  have e : (Archetype.new 0 Mask.empty [] [] [] []).addTable 0 [] =
+      Archetype.new 0 Mask.empty [] [] [] [0] := rfl
+  rw [e] at this
+  refine this.congr_tgt ?_
+  intro t ht
+  simp [Archetype.new, TableIDs.ofList] at ht
+  subst ht; rfl
+
+theorem registerComponent {w w' : World} (h : RInv w) {k : CompKind} {n : Nat}
+    (hr : World.registerComponent k w = .ok n w') : RInv w' := by
+  obtain ⟨_, _, ha, ht, _⟩ := registerComponent_ok hr
+  exact h.congr ha ht
+
+theorem append_arch {w w' : World} (h : RInv w) (mask : Mask)
+    (ha : w'.archetypes = w.archetypes ++ [newArch w mask]) (ht : w'.tables = w.tables) : RInv w' := by
+  intro a A hA
+  have : (fun t => (w'.tbl t).targets) = fun t => (w.tbl t).targets := by
+    funext t; simp only [tbl, ht]
+  rw [this]
+  rw [ha] at hA
+  rcases getElem?_concat_cases hA with ⟨_, h1⟩ | ⟨_, rfl⟩
+  · exact h a A h1
+  · exact Archetype.indexInv_new _ _ _ _ _ (by simp) _
+
+theorem createArchetype {w w' : World} (h : RInv w) {mask : Mask} {a : Nat}
+    (hr : World.createArchetype mask w = .ok a w') : RInv w' := by
+  obtain ⟨w1, hok, ha, ht, _⟩ := createArchetype_ok mask w
+  rw [hok] at hr
+  injection hr with _ h2
+  subst h2
+  exact h.append_arch mask ha ht
+
+theorem findOrCreateArch {w w' : World} (h : RInv w) {mask : Mask} {a : Nat}
+    (hr : World.findOrCreateArch mask w = .ok a w') : RInv w' := by
+  unfold World.findOrCreateArch at hr
+  split at hr
+  · injection hr with _ h2; subst h2; exact h
+  · exact h.createArchetype hr
+
+/-- adding / recycling a table, given that the edited archetype has its index updated -/
+theorem tableAdded {w w' : World} {a tid : Nat} {A A2 : Archetype} {Tn : Table} (h : RInv w)
+    (ta : TableAdded w w' a tid A A2 Tn)
+    (hA2 : A2.IndexInv (fun t => if t = tid then Tn.targets else (w.tbl t).targets)) : RInv w' := by
+  have htg : ∀ (t : Nat), (w'.tbl t).targets = if t = tid then Tn.targets else (w.tbl t).targets := by
+    intro t
+    by_cases ht : t = tid
+    · subst ht; rw [if_pos rfl, tbl_of_get ta.tget_self]
+    · rw [if_neg ht]
+      simp only [tbl, List.getD_eq_getElem?_getD, ta.tget_ne ht]
+  intro b B hB
+  rcases ta.aget hB with ⟨rfl, rfl⟩ | ⟨hb, h1⟩
+  · exact hA2.congr_tgt (fun t _ => htg t)
+  · refine (h b B h1).congr_tgt ?_
+    intro t ht
+    have hne : t ≠ tid := by
+      rintro rfl; exact (ta.others b B hb h1).1 ht
+    show (w'.tbl t).targets = (w.tbl t).targets
+    rw [htg, if_neg hne]
+
+end RInv
+
 /-- the relations handed to `createTable` name relation columns of the archetype -/
 theorem SInvMid.rels_cols {w : World} (h : SInvMid w) {a : Nat} {A : Archetype}
     (hA : w.archetypes[a]? = some A) {rels : List RelID}
@@ -1034,7 +1176,9 @@ theorem SInvMid.createTableS_added {w : World} (h : SInvMid w) {a : Nat} {A : Ar
        ((createTableS w a rels).2 < w.tables.length ∧ (createTableS w a rels).2 ∈ A.freeTables ∧
           Tn = (w.tbl (createTableS w a rels).2).recycle (ctTargets A rels) rels)) ∧
       (createTableS w a rels).1.entities = w.entities ∧ (createTableS w a rels).1.pool = w.pool ∧
-      (createTableS w a rels).1.cache = w.cache := by
+      (createTableS w a rels).1.cache = w.cache ∧
+      (A.IndexInv (fun t => (w.tbl t).targets) →
+        A2.IndexInv (fun t => if t = (createTableS w a rels).2 then Tn.targets else (w.tbl t).targets)) := by
   have hAe : w.arch a = A := arch_of_get hA
   have halt := alt_of_get hA
   have hS := h.astruct a A hA
@@ -1053,7 +1197,8 @@ theorem SInvMid.createTableS_added {w : World} (h : SInvMid w) {a : Nat} {A : Ar
         obtain ⟨T, hT, _⟩ := h.owned b B _ hB (Or.inr hm)
         exact absurd (lt_of_get hT) (Nat.lt_irrefl _)
     refine ⟨A.addTable w.tables.length (ctTargets A rels), _, ?_, rfl, rfl,
-      Or.inl ⟨hfree, rfl, rfl⟩, rfl, rfl, rfl⟩
+      Or.inl ⟨hfree, rfl, rfl⟩, rfl, rfl, rfl,
+      fun hI => hI.addTable _ _ (hnew a A hA).1 (hnew a A hA).2⟩
     refine { hA := hA, archs := ?_, tabs := ?_, kinds := rfl,
              id := Archetype.addTable_id .., mask := Archetype.addTable_mask ..,
              comps := Archetype.addTable_comps .., isRel := Archetype.addTable_isRel ..,
@@ -1086,7 +1231,7 @@ theorem SInvMid.createTableS_added {w : World} (h : SInvMid w) {a : Nat} {A : Ar
     have : A0 = A := by rw [hTa, hA] at hA0; exact (Option.some.inj hA0).symm
     subst this
     refine ⟨A'.addTable t (ctTargets A0 rels), (w.tbl t).recycle (ctTargets A0 rels) rels, ?_, rfl, rfl,
-      Or.inr ⟨htlt, htfree, rfl⟩, rfl, rfl, rfl⟩
+      Or.inr ⟨htlt, htfree, rfl⟩, rfl, rfl, rfl, fun hI => hI.recycle hf _⟩
     refine { hA := hA, archs := ?_, tabs := ?_, kinds := rfl,
              id := (Archetype.addTable_id ..).trans e1, mask := (Archetype.addTable_mask ..).trans e2,
              comps := (Archetype.addTable_comps ..).trans e3,
@@ -1141,5 +1286,915 @@ theorem SInvMid.createTableS_added {w : World} (h : SInvMid w) {a : Nat} {A : Ar
       have := (h.nonRelLe a A0 hA hr').2
       rw [hsplit] at this
       simp at this
+
+/-! ## (2d) `createTable` on success -/
+
+/-- What a successful `createTable a rels` guarantees (`w` before, `w'` after, `t` the result). -/
+structure CreatedTable (w w' : World) (a : Nat) (rels : List RelID) (t : Nat) : Prop where
+  /-- the arguments passed the checks of `createTable` -/
+  numRel : (w.arch a).numRel ≤ rels.length
+  cols : ∀ (r : RelID), r ∈ rels → ((w.arch a).colIdx r.comp).isSome = true
+  valid : RelsValid w rels
+  /-- the table exists, belongs to `a`, is active, and carries the given relations -/
+  get : ∃ (T : Table), w'.tables[t]? = some T ∧ T.arch = a ∧ T.relIDs = rels ∧ T.isFree = false ∧
+    T.targets = ctTargets (w.arch a) rels ∧ T.ids = (w.arch a).comps
+  active : t ∈ (w'.arch a).tables.tables
+  /-- either a fresh empty table at the end, or a free table of `a` recycled with its rows
+      (`len`, `ents`, `cols`, `cap`) untouched -/
+  kind : (t = w.tables.length ∧ w'.tables.length = w.tables.length + 1 ∧ (w'.tbl t).len = 0 ∧
+            (w.arch a).freeTables = []) ∨
+         (t < w.tables.length ∧ w'.tables.length = w.tables.length ∧ t ∈ (w.arch a).freeTables ∧
+            (w.tbl t).isFree = true ∧
+            w'.tbl t = { w.tbl t with targets := ctTargets (w.arch a) rels, relIDs := rels, isFree := false })
+  /-- frame -/
+  others : ∀ (t' : Nat), t' ≠ t → w'.tables[t']? = w.tables[t']?
+  otherArchs : ∀ (b : Nat), b ≠ a → w'.archetypes[b]? = w.archetypes[b]?
+  archLen : w'.archetypes.length = w.archetypes.length
+  archA : (w'.arch a).mask = (w.arch a).mask ∧ (w'.arch a).comps = (w.arch a).comps ∧
+    (w'.arch a).id = (w.arch a).id ∧ (w'.arch a).numRel = (w.arch a).numRel ∧
+    (w'.arch a).tables.tables = (w.arch a).tables.tables ++ [t]
+  entities : w'.entities = w.entities
+  pool : w'.pool = w.pool
+  kinds : w'.kinds = w.kinds
+  /-- invariants -/
+  sinvMid : SInvMid w'
+  settledA : SettledAt w' a
+  settledOthers : ∀ (b : Nat), b ≠ a → SettledAt w b → SettledAt w' b
+  idx : IdxInv w → IdxInv w'
+  rinv : RInv w → RInv w'
+
+theorem list_eq_concat_of_get {α : Type} {l l' : List α} {x : α}
+    (h : ∀ (t : Nat), l'[t]? = if t = l.length then some x else l[t]?) : l' = l ++ [x] := by
+  apply List.ext_getElem?
+  intro t; rw [h, getElem?_concat_eq]
+
+theorem list_eq_set_of_get {α : Type} {l l' : List α} {x : α} {i : Nat} (hi : i < l.length)
+    (h : ∀ (t : Nat), l'[t]? = if t = i then some x else l[t]?) : l' = l.set i x := by
+  apply List.ext_getElem?
+  intro t; rw [h, getElem?_set_eq _ _ _ _ hi]
+
+/-- **2d** `createTable a rels` on success, for an existing archetype `a` which — if it has no
+    relation column — has no table yet. -/
+theorem SInvMid.createTable {w w' : World} (h : SInvMid w) {a : Nat} {rels : List RelID} {t : Nat}
+    (ha : a < w.archetypes.length)
+    (hnr : (w.arch a).hasRelations = false → (w.arch a).tables.tables = [])
+    (hok : World.createTable a rels w = .ok t w') : CreatedTable w w' a rels t := by
+  obtain ⟨h1, h2, h3, h4, h5⟩ := createTable_ok hok
+  have hA := aget_of_lt ha
+  obtain ⟨A2, Tn, ta, r1, r2, hkind, e1, e2, e3, hrinv⟩ := h.createTableS_added hA h2 h3 hnr
+  obtain ⟨f1, f2, f3, f4, f5⟩ := cacheAddTable_frame h5
+  rw [← h4] at ta hkind hrinv
+  have ta' := ta.congr f1 f2 f3
+  obtain ⟨hmid, hsa, hso⟩ := h.tableAdded ta'
+  have hTn : w'.tables[t]? = some Tn := ta'.tget_self
+  have hlen : w'.archetypes.length = w.archetypes.length := by rw [ta'.archs, List.length_set]
+  refine { numRel := h1, cols := h2, valid := h3,
+           get := ⟨Tn, hTn, ta'.tArch, r1, ta'.tFree, r2, ta'.tIds⟩,
+           active := by rw [ta'.arch_self, ta'.memT]; exact Or.inr rfl,
+           kind := ?_, others := fun t' ht' => ta'.tget_ne ht',
+           otherArchs := fun b hb => ta'.aget_ne hb, archLen := hlen,
+           archA := ?_, entities := f4.trans e1, pool := f5.trans e2, kinds := ta'.kinds,
+           sinvMid := hmid, settledA := hsa, settledOthers := hso, idx := ?_,
+           rinv := fun hR => hR.tableAdded ta' (hrinv (hR a _ hA)) }
+  · rcases hkind with ⟨k1, k2, k3⟩ | ⟨k1, k2, k3⟩
+    · left
+      have : w'.tables = w.tables ++ [Tn] := list_eq_concat_of_get (k2 ▸ ta'.tabs)
+      refine ⟨k2, by rw [this]; simp, ?_, k1⟩
+      rw [tbl_of_get hTn, k3]; rfl
+    · right
+      have : w'.tables = w.tables.set t Tn := list_eq_set_of_get k1 ta'.tabs
+      have hT := get_of_lt k1
+      have hfree : (w.tbl t).isFree = true := by
+        obtain ⟨T, hT', hTa⟩ := h.owned a _ t hA (Or.inr k2)
+        have := (h.member t T hT').2
+        rw [hTa] at this
+        rw [tbl_of_get hT']; exact this.2 k2
+      refine ⟨k1, by rw [this, List.length_set], k2, hfree, ?_⟩
+      rw [tbl_of_get hTn, k3]; rfl
+  · rw [ta'.arch_self]
+    exact ⟨ta'.mask, ta'.comps, ta'.id, ta'.numRel, ta'.tabsEq⟩
+  · intro hI
+    rcases hkind with ⟨k1, k2, k3⟩ | ⟨k1, k2, k3⟩
+    · have ht : w'.tables = w.tables ++ [Tn] := list_eq_concat_of_get (k2 ▸ ta'.tabs)
+      have := hI.append_new_table a (w.arch a).comps (w.arch a).isRel (w.arch a).zst
+        (if (w.arch a).hasRelations then w.initCapRel else w.initCap) (ctTargets (w.arch a) rels) rels
+        (h.comps a _ hA).2.2
+      exact this.congr (f4.trans e1) (by rw [ht, k3])
+    · have ht : w'.tables = w.tables.set t Tn := list_eq_set_of_get k1 ta'.tabs
+      have := hI.of_same_rows t Tn (by rw [k3]; exact Table.recycle_shape (hI.shape t _ (get_of_lt k1)) _ _)
+        (by rw [k3]; rfl) (by rw [k3]; rfl) (fun r _ => by rw [k3]; rfl)
+      exact this.congr (f4.trans e1) ht
+
+/-! ## (2e) `getTable` -/
+
+namespace World
+
+theorem getTable_go_spec (rels : List RelID) (w : World) (ts : List Nat) :
+    (getTable.go rels w ts).state = w ∧
+    ∀ (t : Nat) (w' : World), getTable.go rels w ts = .ok (some t) w' → t ∈ ts := by
+  induction ts with
+  | nil => exact ⟨rfl, by intro t w' h; simp [getTable.go] at h⟩
+  | cons x rest ih =>
+    simp only [getTable.go]
+    split
+    · refine ⟨rfl, ?_⟩
+      intro t w' h; injection h with h1 _; injection h1 with h1; subst h1; exact List.mem_cons_self
+    · exact ⟨ih.1, fun t w' h => List.mem_cons_of_mem _ (ih.2 t w' h)⟩
+    · exact ⟨rfl, by intro t w' h; cases h⟩
+    · exact ⟨rfl, by intro t w' h; cases h⟩
+
+/-- **2e** `getTable` never changes the state (whether it returns or panics). -/
+theorem getTable_state (a : Nat) (rels : List RelID) (w : World) : (getTable a rels w).state = w := by
+  unfold getTable
+  simp only
+  split
+  · rfl
+  · split
+    · rfl
+    · split
+      · rfl
+      · split
+        · rfl
+        · split
+          · rfl
+          · split
+            · rfl
+            · exact (getTable_go_spec _ _ _).1
+
+theorem getTable_ok_state {a : Nat} {rels : List RelID} {w w' : World} {r : Option Nat}
+    (h : getTable a rels w = .ok r w') : w' = w := by
+  have := getTable_state a rels w
+  rw [h] at this; exact this
+
+/-- **2e** a table found by `getTable` is an active table of the archetype (for an archetype
+    with relation columns this uses the soundness of its relation index). -/
+theorem getTable_some_mem {a : Nat} {rels : List RelID} {w w' : World} {t : Nat}
+    (h : getTable a rels w = .ok (some t) w')
+    (hidx : (w.arch a).hasRelations = true → RelIndexSound (w.arch a)) :
+    t ∈ (w.arch a).tables.tables := by
+  unfold getTable at h
+  simp only at h
+  split at h
+  · cases h
+  · rename_i hne
+    split at h
+    · injection h with h1 _; injection h1 with h1; subst h1
+      cases hl : (w.arch a).tables.tables with
+      | nil => rw [hl] at hne; simp at hne
+      | cons x rest => simp
+    · rename_i hr
+      split at h
+      · cases h
+      · split at h
+        · cases h
+        · split at h
+          · cases h
+          · split at h
+            · cases h
+            · rename_i ts hfind
+              have hr' : (w.arch a).hasRelations = true := by simpa using hr
+              exact hidx hr' _ _ ts hfind t ((getTable_go_spec _ _ _).2 t w' h)
+
+/-- `getTable` on an archetype without relation columns: its first table, if any -/
+theorem getTable_noRel {a : Nat} (rels : List RelID) {w : World}
+    (hr : (w.arch a).hasRelations = false) :
+    getTable a rels w =
+      .ok (if (w.arch a).tables.tables.isEmpty then none
+           else some ((w.arch a).tables.tables.getD 0 0)) w := by
+  unfold getTable
+  simp only [hr]
+  split <;> rfl
+
+end World
+
+/-! ## (2c) `findArch` / `findOrCreateArch` -/
+
+namespace World
+
+theorem findArch_some {w : World} (h : SInvMid w) {mask : Mask} {a : Nat}
+    (hf : w.findArch mask = some a) : ∃ (A : Archetype), w.archetypes[a]? = some A ∧ A.mask = mask := by
+  unfold findArch at hf
+  rw [Option.map_eq_some_iff] at hf
+  obtain ⟨A, hfind, hid⟩ := hf
+  have hm : A.mask = mask := by
+    have := List.find?_some hfind
+    simpa using this
+  obtain ⟨i, hi⟩ := List.getElem?_of_mem (List.mem_of_find?_eq_some hfind)
+  have := h.archId i A hi
+  rw [hid] at this
+  subst this
+  exact ⟨A, hi, hm⟩
+
+/-- the archetype of a mask is found by that mask -/
+theorem findArch_of_get {w : World} (h : SInvMid w) {a : Nat} {A : Archetype}
+    (hA : w.archetypes[a]? = some A) : w.findArch A.mask = some a := by
+  cases hf : w.findArch A.mask with
+  | none => exact absurd rfl (findArch_none hf a A hA)
+  | some b =>
+    obtain ⟨B, hB, hm⟩ := findArch_some h hf
+    rw [h.maskUniq b a B A hB hA hm]
+
+end World
+
+/-- **2c** `findOrCreateArch mask` (all bits of `mask` registered) returns an archetype with that
+    mask.  If it existed nothing changes; otherwise it is appended without a table.  Either way
+    the world is `SInvMid`, every archetype other than the returned one is settled, the old
+    archetypes keep their positions, and tables / registry / index / pool / cache are untouched. -/
+theorem SInv.findOrCreateArch {w : World} (h : SInv w) (mask : Mask)
+    (hreg : ∀ (c : Nat), mask.get c = true → c < w.kinds.length) :
+    ∃ (a : Nat) (w' : World), World.findOrCreateArch mask w = .ok a w' ∧
+      SInvMid w' ∧ (∀ (b : Nat), b ≠ a → SettledAt w' b) ∧
+      a < w'.archetypes.length ∧ (w'.arch a).mask = mask ∧
+      (∀ (b : Nat), b < w.archetypes.length → w'.archetypes[b]? = w.archetypes[b]?) ∧
+      w.archetypes.length ≤ w'.archetypes.length ∧
+      w'.tables = w.tables ∧ w'.kinds = w.kinds ∧ w'.entities = w.entities ∧ w'.pool = w.pool ∧
+      w'.cache = w.cache ∧
+      ((w.findArch mask = some a ∧ w' = w) ∨
+       (w.findArch mask = none ∧ a = w.archetypes.length ∧
+          w'.archetypes = w.archetypes ++ [newArch w mask])) := by
+  unfold World.findOrCreateArch
+  cases hf : w.findArch mask with
+  | some a =>
+    obtain ⟨A, hA, hm⟩ := findArch_some h.toSInvMid hf
+    refine ⟨a, w, rfl, h.toSInvMid, fun b _ => h.settled b, alt_of_get hA, ?_, fun _ _ => rfl,
+      Nat.le_refl _, rfl, rfl, rfl, rfl, rfl, Or.inl ⟨rfl, rfl⟩⟩
+    rw [arch_of_get hA]; exact hm
+  | none =>
+    obtain ⟨w', hok, hmid, hset, harchs, hmask, _, _, ht, hk, he, hp, hc⟩ := h.createArchetype mask hf hreg
+    refine ⟨w.archetypes.length, w', hok, hmid, hset, ?_, hmask, ?_, ?_, ht, hk, he, hp, hc,
+      Or.inr ⟨rfl, rfl, harchs⟩⟩
+    · rw [harchs]; simp
+    · intro b hb; rw [harchs, List.getElem?_append_left hb]
+    · rw [harchs]; simp
+
+/-! ## `graph.FindAdd` on masks -/
+
+namespace World
+
+theorem graphFindAdd_go_ok (w : World) : ∀ (add : List Comp) (m : Mask),
+    (∀ (c : Comp), c ∈ add → m.get c = false) → add.Nodup →
+    graphFindAdd.go w m add = .ok (add.foldl Mask.set m) w
+  | [], _, _, _ => rfl
+  | c :: rest, m, hnew, hnd => by
+    have hc : m.get c = false := hnew c List.mem_cons_self
+    simp only [graphFindAdd.go, hc, Bool.false_eq_true, if_false, List.foldl_cons]
+    apply graphFindAdd_go_ok w rest (m.set c)
+    · intro c' hc'
+      rw [Mask.get_set, hnew c' (List.mem_cons_of_mem _ hc')]
+      have : c' ≠ c := by
+        rintro rfl
+        exact (List.nodup_cons.1 hnd).1 hc'
+      simp [this]
+    · exact (List.nodup_cons.1 hnd).2
+
+/-- adding distinct components none of which is present: the mask walk succeeds -/
+theorem graphFindAdd_ok (m : Mask) (add : List Comp) (w : World)
+    (hnew : ∀ (c : Comp), c ∈ add → m.get c = false) (hnd : add.Nodup) :
+    graphFindAdd m add w = .ok (add.foldl Mask.set m) w := graphFindAdd_go_ok w add m hnew hnd
+
+theorem graphFindAdd_go_cases (w : World) : ∀ (add : List Comp) (m : Mask),
+    graphFindAdd.go w m add = .ok (add.foldl Mask.set m) w ∨
+    (graphFindAdd.go w m add = .panic .alreadyHas w ∧
+      ∃ (pre : List Comp) (c : Comp) (post : List Comp), add = pre ++ c :: post ∧
+        (pre.foldl Mask.set m).get c = true)
+  | [], _ => Or.inl rfl
+  | c :: rest, m => by
+    simp only [graphFindAdd.go]
+    cases hc : m.get c with
+    | true => exact Or.inr ⟨by simp, [], c, rest, rfl, hc⟩
+    | false =>
+      simp only [Bool.false_eq_true, if_false, List.foldl_cons]
+      rcases graphFindAdd_go_cases w rest (m.set c) with h | ⟨h, pre, c', post, e, hg⟩
+      · exact Or.inl h
+      · exact Or.inr ⟨h, c :: pre, c', post, by rw [e]; rfl, hg⟩
+
+/-- `graph.FindAdd` either returns the mask with all of `add` set, or rejects with
+    `alreadyHas`; it never changes the state -/
+theorem graphFindAdd_cases (m : Mask) (add : List Comp) (w : World) :
+    graphFindAdd m add w = .ok (add.foldl Mask.set m) w ∨
+    (graphFindAdd m add w = .panic .alreadyHas w ∧
+      ∃ (pre : List Comp) (c : Comp) (post : List Comp), add = pre ++ c :: post ∧
+        (pre.foldl Mask.set m).get c = true) := graphFindAdd_go_cases w add m
+
+theorem graphFindAdd_go_reject (w : World) : ∀ (pre : List Comp) (c : Comp) (post : List Comp) (m : Mask),
+    (pre.foldl Mask.set m).get c = true → graphFindAdd.go w m (pre ++ c :: post) = .panic .alreadyHas w
+  | [], c, post, m, h => by simp only [List.nil_append, graphFindAdd.go]; exact if_pos h
+  | x :: pre, c, post, m, h => by
+    simp only [List.cons_append, graphFindAdd.go]
+    split
+    · rfl
+    · exact graphFindAdd_go_reject w pre c post (m.set x) h
+
+/-- the rejection: a component that is already in the running mask -/
+theorem graphFindAdd_reject (m : Mask) (pre : List Comp) (c : Comp) (post : List Comp) (w : World)
+    (h : (pre.foldl Mask.set m).get c = true) :
+    graphFindAdd m (pre ++ c :: post) w = .panic .alreadyHas w :=
+  graphFindAdd_go_reject w pre c post m h
+
+/-! ## `cache.addTable` cannot fail for a table without relations -/
+
+theorem foldl_ne_none {α β : Type} {step : Option β → α → Option β}
+    (h : ∀ (acc : β) (e : α), step (some acc) e ≠ none) :
+    ∀ (fs : List α) (acc : β), fs.foldl step (some acc) ≠ none
+  | [], _ => by simp
+  | e :: rest, acc => by
+    rw [List.foldl_cons]
+    cases hs : step (some acc) e with
+    | none => exact absurd hs (h acc e)
+    | some acc' => exact foldl_ne_none h rest acc'
+
+theorem cacheAddTable_noRel (w : World) (T : Table) (h : T.hasRelations = false) :
+    ∃ (w' : World), w.cacheAddTable T = some w' := by
+  unfold cacheAddTable
+  simp only
+  split
+  · rename_i heq
+    refine absurd heq (foldl_ne_none ?_ _ _)
+    intro acc e
+    dsimp only
+    split
+    · simp
+    · rw [h]; simp
+  · exact ⟨_, rfl⟩
+
+end World
+
+/-! ## (3) `findOrCreateTableAdd` -/
+
+/-- What `findOrCreateTableAdd` (and its siblings) guarantee about the table `t` of archetype `a`
+    they return (`w` before, `w'` after, `mask` the new component mask). -/
+structure FoundOrCreated (w w' : World) (mask : Mask) (t a : Nat) : Prop where
+  archMask : (w'.arch a).mask = mask
+  archLt : a < w'.archetypes.length
+  active : t ∈ (w'.arch a).tables.tables
+  tblLt : t < w'.tables.length
+  tblArch : (w'.tbl t).arch = a
+  tblIds : (w'.tbl t).ids = mask.toList w.kinds.length
+  tblFree : (w'.tbl t).isFree = false
+  sinv : SInv w'
+  idx : IdxInv w → IdxInv w'
+  rinv : RInv w → RInv w'
+  entities : w'.entities = w.entities
+  pool : w'.pool = w.pool
+  kinds : w'.kinds = w.kinds
+  /-- the rows (and layout) of every table that existed before are unchanged -/
+  rows : ∀ (t' : Nat), t' < w.tables.length →
+    (w'.tbl t').len = (w.tbl t').len ∧ (w'.tbl t').ents = (w.tbl t').ents ∧
+    (w'.tbl t').cols = (w.tbl t').cols ∧ (w'.tbl t').arch = (w.tbl t').arch ∧
+    (w'.tbl t').ids = (w.tbl t').ids ∧ (w'.tbl t').id = (w.tbl t').id
+  /-- only the returned table can have changed at all (recycling edits `targets`, `relIDs`, `isFree`) -/
+  others : ∀ (t' : Nat), t' < w.tables.length → t' ≠ t → w'.tables[t']? = w.tables[t']?
+  tablesLen : w.tables.length ≤ w'.tables.length
+  /-- a table that did not exist before is empty -/
+  newEmpty : w.tables.length ≤ t → (w'.tbl t).len = 0
+  /-- the old archetypes keep their masks -/
+  masks : ∀ (b : Nat), b < w.archetypes.length → (w'.arch b).mask = (w.arch b).mask
+  archsLen : w.archetypes.length ≤ w'.archetypes.length
+
+namespace World
+
+theorem findOrCreateTableAdd_ok_inv {oldT : Nat} {startMask mask mask' : Mask} {add : List Comp}
+    {rels : List RelID} {w w1 w' : World} {a a' t : Nat}
+    (hg : graphFindAdd startMask add w = .ok mask w) (ha : findOrCreateArch mask w = .ok a w1)
+    (hok : findOrCreateTableAdd oldT startMask add rels w = .ok (t, a', mask') w') :
+    mask' = mask ∧ a' = a ∧
+    ((getTable a (relsForAdd (w1.tbl oldT) rels) w1 = .ok (some t) w1 ∧ w' = w1) ∨
+     (getTable a (relsForAdd (w1.tbl oldT) rels) w1 = .ok none w1 ∧
+        createTable a (relsForAdd (w1.tbl oldT) rels) w1 = .ok t w')) := by
+  simp only [findOrCreateTableAdd, bind, M.bind, hg, ha, M.get] at hok
+  cases hgt : getTable a (relsForAdd (w1.tbl oldT) rels) w1 with
+  | panic k s => rw [hgt] at hok; cases hok
+  | ok r s =>
+    have hs := getTable_ok_state hgt
+    subst hs
+    rw [hgt] at hok
+    cases r with
+    | some t1 =>
+      simp only [pure, M.pure] at hok
+      injection hok with h1 h2
+      injection h1 with h1 h3
+      injection h3 with h3 h4
+      subst h1; subst h2; subst h3; subst h4
+      exact ⟨rfl, rfl, Or.inl ⟨rfl, rfl⟩⟩
+    | none =>
+      simp only at hok
+      cases hct : createTable a (relsForAdd (s.tbl oldT) rels) s with
+      | panic k s2 => simp only [M.bind, hct] at hok; cases hok
+      | ok t2 s2 =>
+        simp only [M.bind, hct, pure, M.pure] at hok
+        injection hok with h1 h2
+        injection h1 with h1 h3
+        injection h3 with h3 h4
+        subst h1; subst h2; subst h3; subst h4
+        exact ⟨rfl, rfl, Or.inr ⟨rfl, rfl⟩⟩
+
+/-- the rejection of `findOrCreateTableAdd`: a component that is already in the running mask
+    (present in the start mask, or listed twice) is refused with the state unchanged -/
+theorem findOrCreateTableAdd_reject (oldT : Nat) (startMask : Mask) (pre : List Comp) (c : Comp)
+    (post : List Comp) (rels : List RelID) (w : World)
+    (h : (pre.foldl Mask.set startMask).get c = true) :
+    findOrCreateTableAdd oldT startMask (pre ++ c :: post) rels w = .panic .alreadyHas w := by
+  simp only [findOrCreateTableAdd, bind, M.bind, graphFindAdd_reject startMask pre c post w h]
+
+theorem newArch_relIndexSound (w : World) (mask : Mask) : RelIndexSound (newArch w mask) := by
+  intro i g ts hf
+  have : (newArch w mask).relationTables.getD i [] = [] := by
+    simp only [newArch, Archetype.new, List.getD_eq_getElem?_getD, List.getElem?_map]
+    cases (mask.toList w.kinds.length)[i]? <;> rfl
+  rw [this] at hf; cases hf
+
+end World
+
+theorem Mask.get_foldl_set_reg {startMask : Mask} {add : List Comp} {n : Nat}
+    (h1 : ∀ (c : Nat), startMask.get c = true → c < n) (h2 : ∀ (c : Comp), c ∈ add → c < n)
+    (c : Nat) (hc : (add.foldl Mask.set startMask).get c = true) : c < n := by
+  rw [Mask.get_ofList_foldl] at hc
+  cases hs : startMask.get c with
+  | true => exact h1 c hs
+  | false =>
+    rw [hs] at hc
+    simp at hc
+    exact h2 c hc.2
+
+/-- **3 (general form, on success)**: whenever `findOrCreateTableAdd` returns — with or without
+    relations — the result satisfies `FoundOrCreated`.  `hidx` (the relation index of the target archetype, if it
+    exists already and has relation columns, only lists active tables; a consequence of the
+    archetype index invariant of `ArchIndex`) is vacuous for archetypes without relations. -/
+theorem SInv.findOrCreateTableAdd_of_ok {w w' : World} (h : SInv w) {oldT : Nat}
+    {startMask mask : Mask} {add : List Comp} {rels : List RelID} {t a : Nat}
+    (hstart : ∀ (c : Nat), startMask.get c = true → c < w.kinds.length)
+    (hreg : ∀ (c : Comp), c ∈ add → c < w.kinds.length)
+    (hidx : ∀ (b : Nat) (B : Archetype), w.archetypes[b]? = some B →
+      B.mask = add.foldl Mask.set startMask → B.hasRelations = true → RelIndexSound B)
+    (hok : World.findOrCreateTableAdd oldT startMask add rels w = .ok (t, a, mask) w') :
+    mask = add.foldl Mask.set startMask ∧ FoundOrCreated w w' mask t a := by
+  -- step 1: the mask walk
+  have hg : graphFindAdd startMask add w = .ok (add.foldl Mask.set startMask) w := by
+    rcases graphFindAdd_cases startMask add w with hg | ⟨hg, _⟩
+    · exact hg
+    · simp only [World.findOrCreateTableAdd, bind, M.bind, hg] at hok; cases hok
+  -- step 2: the archetype
+  obtain ⟨a1, w1, ha, hmid, hset, halt, hmask, hpre, hlen, ht, hk, he, hp, _, hcase⟩ :=
+    h.findOrCreateArch (add.foldl Mask.set startMask) (Mask.get_foldl_set_reg hstart hreg)
+  obtain ⟨rfl, rfl, hbr⟩ := findOrCreateTableAdd_ok_inv hg ha hok
+  refine ⟨rfl, ?_⟩
+  have hA1 := aget_of_lt halt
+  have hmasks1 : ∀ (b : Nat), b < w.archetypes.length → (w1.arch b).mask = (w.arch b).mask := by
+    intro b hb
+    simp only [arch, List.getD_eq_getElem?_getD, hpre b hb]
+  have hidx1 : (w1.arch a).hasRelations = true → RelIndexSound (w1.arch a) := by
+    intro hr
+    rcases hcase with ⟨hf, rfl⟩ | ⟨_, rfl, harchs⟩
+    · exact hidx a _ hA1 hmask hr
+    · have : w1.arch w.archetypes.length = newArch w (add.foldl Mask.set startMask) := by
+        apply arch_of_get; rw [harchs]; exact List.getElem?_concat_length
+      rw [this]; exact newArch_relIndexSound _ _
+  rcases hbr with ⟨hgt, rfl⟩ | ⟨hgt, hct⟩
+  · -- an existing table
+    have hact := getTable_some_mem hgt hidx1
+    obtain ⟨T, hT, hTa⟩ := hmid.owned a _ t hA1 (Or.inl hact)
+    have hTe := tbl_of_get hT
+    obtain ⟨A0, hA0, i1, _⟩ := hmid.tblArch t T hT
+    have hA0e : A0 = w'.arch a := by rw [hTa, hA1] at hA0; exact (Option.some.inj hA0).symm
+    have hsettled : SettledAt w' a := by
+      intro A hA hr
+      rw [hA1] at hA
+      have hAe := (Option.some.inj hA).symm
+      subst hAe
+      have := (hmid.nonRelLe a _ hA1 hr).1
+      cases hl : (w'.arch a).tables.tables with
+      | nil => rw [hl] at hact; cases hact
+      | cons x rest => rw [hl] at this; simp only [List.length_cons] at this ⊢; omega
+    refine { archMask := hmask, archLt := halt, active := hact, tblLt := lt_of_get hT,
+             tblArch := by rw [hTe]; exact hTa, tblIds := ?_, tblFree := ?_,
+             sinv := { hmid with settled := fun b => ?_ }, idx := fun hI => hI.congr he ht,
+             rinv := fun hR => hR.findOrCreateArch ha,
+             entities := he, pool := hp, kinds := hk, rows := ?_, others := ?_,
+             tablesLen := by rw [ht]; exact Nat.le_refl _,
+             newEmpty := ?_, masks := hmasks1, archsLen := hlen }
+    · rw [hTe, i1, hA0e, (hmid.comps a _ hA1).1, hmask, hk]
+    · have := (hmid.member t T hT).1
+      rw [hTa] at this
+      rw [hTe]; exact this.2 hact
+    · by_cases hb : b = a
+      · subst hb; exact hsettled
+      · exact hset b hb
+    · intro t' _
+      have : w'.tbl t' = w.tbl t' := by simp only [tbl, ht]
+      rw [this]; exact ⟨rfl, rfl, rfl, rfl, rfl, rfl⟩
+    · intro t' _ _; rw [ht]
+    · intro hle
+      have := lt_of_get hT
+      rw [ht] at this
+      omega
+  · -- a table created (or recycled)
+    have hnr : (w1.arch a).hasRelations = false → (w1.arch a).tables.tables = [] := by
+      intro hr
+      rw [getTable_noRel _ hr] at hgt
+      injection hgt with hgt _
+      split at hgt
+      · rename_i he
+        exact List.isEmpty_iff.1 he
+      · cases hgt
+    have ct := hmid.createTable halt hnr hct
+    obtain ⟨T, hT, hTa, _, hTf, _, hTi⟩ := ct.get
+    have hTe := tbl_of_get hT
+    refine { archMask := ct.archA.1.trans hmask, archLt := by rw [ct.archLen]; exact halt,
+             active := ct.active, tblLt := lt_of_get hT,
+             tblArch := by rw [hTe]; exact hTa, tblIds := ?_, tblFree := by rw [hTe]; exact hTf,
+             sinv := { ct.sinvMid with settled := fun b => ?_ },
+             idx := fun hI => ct.idx (hI.congr he ht),
+             rinv := fun hR => ct.rinv (hR.findOrCreateArch ha),
+             entities := ct.entities.trans he, pool := ct.pool.trans hp, kinds := ct.kinds.trans hk,
+             rows := ?_, others := ?_, tablesLen := ?_, newEmpty := ?_, masks := ?_,
+             archsLen := by rw [ct.archLen]; exact hlen }
+    · rw [hTe, hTi, (hmid.comps a _ hA1).1, hmask, hk]
+    · by_cases hb : b = a
+      · subst hb; exact ct.settledA
+      · exact ct.settledOthers b hb (hset b hb)
+    · intro t' hlt
+      have hw1 : w1.tbl t' = w.tbl t' := by simp only [tbl, ht]
+      by_cases htt : t' = t
+      · subst htt
+        rcases ct.kind with ⟨k1, _⟩ | ⟨_, _, _, _, k5⟩
+        · rw [ht] at k1; omega
+        · rw [k5, hw1]; exact ⟨rfl, rfl, rfl, rfl, rfl, rfl⟩
+      · have : w'.tbl t' = w.tbl t' := by
+          simp only [tbl, List.getD_eq_getElem?_getD, ct.others t' htt, ht]
+        rw [this]; exact ⟨rfl, rfl, rfl, rfl, rfl, rfl⟩
+    · intro t' _ htt; rw [ct.others t' htt, ht]
+    · rcases ct.kind with ⟨_, k2, _⟩ | ⟨_, k2, _⟩ <;> rw [k2, ht] <;> omega
+    · intro hle
+      rcases ct.kind with ⟨_, _, k3, _⟩ | ⟨k1, _⟩
+      · exact k3
+      · rw [ht] at k1; omega
+    · intro b hb
+      rw [← hmasks1 b hb]
+      by_cases hba : b = a
+      · subst hba; exact ct.archA.1
+      · simp only [arch, List.getD_eq_getElem?_getD, ct.otherArchs b hba]
+
+/-! ## (3) the total specification for the relation-free case -/
+
+/-- an archetype all of whose columns are non-relation columns has no relations -/
+theorem Archetype.Struct.hasRelations_false {A : Archetype} (h : A.Struct)
+    (hall : ∀ (i : Nat), A.isRel.getD i false = false) : A.hasRelations = false := by
+  have : (A.isRel.filter fun b => b) = [] := by
+    rw [List.filter_eq_nil_iff]
+    intro x hx hxt
+    obtain ⟨i, hi⟩ := List.getElem?_of_mem hx
+    have := hall i
+    rw [List.getD_eq_getElem?_getD, hi] at this
+    simp at this hxt
+    rw [this] at hxt; cases hxt
+  simp [Archetype.hasRelations, h.numRelEq, this]
+
+namespace SInvMid
+
+/-- a table of an archetype without relation columns lists no relations -/
+theorem relIDs_nil {w : World} (h : SInvMid w) {t : Nat} {T : Table} (hT : w.tables[t]? = some T)
+    (hr : (w.arch T.arch).hasRelations = false) : T.relIDs = [] := by
+  obtain ⟨A, hA, _, i2, _⟩ := h.tblArch t T hT
+  rw [arch_of_get hA] at hr
+  have h0 : A.numRel = 0 := by simpa [Archetype.hasRelations] using hr
+  apply List.eq_nil_iff_forall_not_mem.2
+  intro r hr'
+  obtain ⟨i, _, hi⟩ := h.relCols t T hT r hr'
+  rw [i2] at hi
+  exact (h.astruct _ A hA).no_rel h0 i hi
+
+/-- the columns of an archetype are exactly the registered bits of its mask -/
+theorem mem_comps {w : World} (h : SInvMid w) {a : Nat} {A : Archetype}
+    (hA : w.archetypes[a]? = some A) (c : Comp) : c ∈ A.comps ↔ A.mask.get c = true := by
+  rw [(h.comps a A hA).1, Mask.mem_toList]
+  exact ⟨fun h1 => h1.2, fun h1 => ⟨h.maskReg a A hA c h1, h1⟩⟩
+
+/-- an archetype whose components are all non-relation components has no relations -/
+theorem hasRelations_false_of_kinds {w : World} (h : SInvMid w) {a : Nat} {A : Archetype}
+    (hA : w.archetypes[a]? = some A)
+    (hk : ∀ (c : Comp), A.mask.get c = true → (w.kinds.getD c {}).isRel = false) :
+    A.hasRelations = false := by
+  apply (h.astruct a A hA).hasRelations_false
+  intro i
+  cases hc : A.comps[i]? with
+  | none =>
+    have hlen := (h.comps a A hA).2.1
+    have : A.comps.length ≤ i := by
+      rcases Nat.lt_or_ge i A.comps.length with h1 | h1
+      · rw [List.getElem?_eq_getElem h1] at hc; cases hc
+      · exact h1
+    rw [List.getD_eq_getElem?_getD, List.getElem?_eq_none (by omega)]; rfl
+  | some c =>
+    rw [(h.kindsOf a A i c hA hc).1]
+    exact hk c ((h.mem_comps hA c).1 (List.mem_of_getElem? hc))
+
+/-- conversely the components of an archetype without relations are non-relation components -/
+theorem kinds_of_hasRelations_false {w : World} (h : SInvMid w) {a : Nat} {A : Archetype}
+    (hA : w.archetypes[a]? = some A) (hr : A.hasRelations = false) (c : Comp)
+    (hc : A.mask.get c = true) : (w.kinds.getD c {}).isRel = false := by
+  have h0 : A.numRel = 0 := by simpa [Archetype.hasRelations] using hr
+  obtain ⟨i, hi⟩ := List.getElem?_of_mem ((h.mem_comps hA c).2 hc)
+  rw [← (h.kindsOf a A i c hA hi).1]
+  cases hb : A.isRel.getD i false with
+  | false => rfl
+  | true => exact absurd hb ((h.astruct a A hA).no_rel h0 i)
+
+/-- the root archetype (empty mask) has no relations -/
+theorem root_noRel {w : World} (h : SInvMid w) : (w.arch 0).hasRelations = false := by
+  obtain ⟨h0, h1, h2⟩ := h.root
+  obtain ⟨A, hA, _⟩ := h.tblArch 0 _ (get_of_lt h0)
+  rw [h1] at hA
+  rw [arch_of_get hA] at h2 ⊢
+  apply h.hasRelations_false_of_kinds hA
+  intro c hc; rw [h2] at hc; simp at hc
+
+end SInvMid
+
+/-- **3 (total form, relation-free case)**.  `oldT` is an existing table whose archetype has no
+    relation column, `startMask` that archetype's mask; `add` are distinct registered
+    NON-relation components none of which is in `startMask`; no relations are given.  Then
+    `findOrCreateTableAdd` succeeds and returns a table `t` of an archetype `a` with mask
+    `add.foldl Mask.set startMask` such that `FoundOrCreated` holds; moreover every table that
+    existed before is completely unchanged, and `t ≠ oldT` unless `add = []` (given component
+    IDs below the mask width). -/
+theorem SInv.findOrCreateTableAdd_spec {w : World} (h : SInv w) (hI : IdxInv w) {oldT : Nat}
+    (hold : oldT < w.tables.length) {startMask : Mask}
+    (hstart : startMask = (w.arch (w.tbl oldT).arch).mask)
+    (hnrOld : (w.arch (w.tbl oldT).arch).hasRelations = false)
+    {add : List Comp} (hnd : add.Nodup) (hnew : ∀ (c : Comp), c ∈ add → startMask.get c = false)
+    (hreg : ∀ (c : Comp), c ∈ add → c < w.kinds.length)
+    (hnr : ∀ (c : Comp), c ∈ add → (w.kinds.getD c {}).isRel = false) :
+    ∃ (t a : Nat) (w' : World),
+      World.findOrCreateTableAdd oldT startMask add [] w =
+        .ok (t, a, add.foldl Mask.set startMask) w' ∧
+      FoundOrCreated w w' (add.foldl Mask.set startMask) t a ∧ IdxInv w' ∧
+      (∀ (t' : Nat), t' < w.tables.length → w'.tables[t']? = w.tables[t']?) ∧
+      (add ≠ [] → (∀ (c : Comp), c ∈ add → c < 256) → t ≠ oldT) := by
+  have hT0 := get_of_lt hold
+  obtain ⟨Aold, hAold, _⟩ := h.tblArch oldT _ hT0
+  have hAoldE := arch_of_get hAold
+  have hstartReg : ∀ (c : Nat), startMask.get c = true → c < w.kinds.length := by
+    intro c hc; rw [hstart, hAoldE] at hc; exact h.maskReg _ Aold hAold c hc
+  have hrel0 : (w.tbl oldT).relIDs = [] := h.relIDs_nil hT0 hnrOld
+  -- step 1
+  have hg := graphFindAdd_ok startMask add w hnew hnd
+  -- step 2
+  obtain ⟨a, w1, ha, hmid, hset, halt, hmask, hpre, hlen, ht, hk, he, hp, _, hcase⟩ :=
+    h.findOrCreateArch (add.foldl Mask.set startMask) (Mask.get_foldl_set_reg hstartReg hreg)
+  have hA1 := aget_of_lt halt
+  have hnr1 : (w1.arch a).hasRelations = false := by
+    apply hmid.hasRelations_false_of_kinds hA1
+    intro c hc
+    rw [hmask, Mask.get_ofList_foldl] at hc
+    rw [hk]
+    cases hs : startMask.get c with
+    | true =>
+      rw [hstart, hAoldE] at hs
+      rw [hAoldE] at hnrOld
+      exact h.kinds_of_hasRelations_false hAold hnrOld c hs
+    | false =>
+      rw [hs] at hc; simp at hc
+      exact hnr c hc.2
+  have hall : relsForAdd (w1.tbl oldT) [] = [] := by
+    have : w1.tbl oldT = w.tbl oldT := by simp only [tbl, ht]
+    simp [relsForAdd, this, hrel0]
+  have hgt := getTable_noRel (a := a) [] hnr1
+  -- the result, by cases on whether the archetype has its table
+  have hres : ∃ (t : Nat) (w' : World),
+      World.findOrCreateTableAdd oldT startMask add [] w =
+        .ok (t, a, add.foldl Mask.set startMask) w' ∧
+      (∀ (t' : Nat), t' < w.tables.length → w'.tables[t']? = w.tables[t']?) := by
+    cases hem : (w1.arch a).tables.tables.isEmpty with
+    | false =>
+      refine ⟨(w1.arch a).tables.tables.getD 0 0, w1, ?_, fun t' _ => by rw [ht]⟩
+      simp only [World.findOrCreateTableAdd, bind, M.bind, hg, ha, M.get, hall, hgt, hem,
+        Bool.false_eq_true, if_false, pure, M.pure]
+    | true =>
+      have hemp : (w1.arch a).tables.tables = [] := List.isEmpty_iff.1 hem
+      have h0 : (w1.arch a).numRel = 0 := by simpa [Archetype.hasRelations] using hnr1
+      have hct0 := createTable_of_valid (a := a) (rels := []) (w := w1) (by omega)
+        (by intro r hr; cases hr) (by intro r hr; cases hr)
+      obtain ⟨A2, Tn, ta, r1, _, _, _⟩ := hmid.createTableS_added hA1 (rels := [])
+        (by intro r hr; cases hr) (by intro r hr; cases hr) (fun _ => hemp)
+      have hTn : (createTableS w1 a []).1.tbl (createTableS w1 a []).2 = Tn := tbl_of_get ta.tget_self
+      obtain ⟨w2, hw2⟩ := cacheAddTable_noRel (createTableS w1 a []).1 Tn
+        (by simp [Table.hasRelations, r1])
+      have hct : World.createTable a [] w1 = .ok (createTableS w1 a []).2 w2 := by
+        rw [hct0, ctFinish, hTn, hw2]
+      have ct := hmid.createTable halt (fun _ => hemp) hct
+      refine ⟨(createTableS w1 a []).2, w2, ?_, ?_⟩
+      · simp only [World.findOrCreateTableAdd, bind, M.bind, hg, ha, M.get, hall, hgt, hem,
+          if_true, hct, pure, M.pure]
+      · intro t' hlt
+        have hne : t' ≠ (createTableS w1 a []).2 := by
+          rcases ct.kind with ⟨k1, _⟩ | ⟨_, _, k3, _⟩
+          · rw [k1, ht]; omega
+          · rw [(hmid.nonRelLe a _ hA1 hnr1).2] at k3; cases k3
+        rw [ct.others t' hne, ht]
+  obtain ⟨t, w', hok, hsame⟩ := hres
+  obtain ⟨_, hfc⟩ := h.findOrCreateTableAdd_of_ok hstartReg hreg (by
+    intro b B hB hm hr
+    -- the target archetype, if it exists, has no relation column
+    exfalso
+    have hb : w.findArch (add.foldl Mask.set startMask) = some b := by
+      rw [← hm]; exact findArch_of_get h.toSInvMid hB
+    rcases hcase with ⟨hf, rfl⟩ | ⟨hf, _⟩
+    · rw [hf] at hb
+      have := Option.some.inj hb
+      subst this
+      rw [arch_of_get hB] at hnr1
+      rw [hnr1] at hr; cases hr
+    · rw [hf] at hb; cases hb) hok
+  refine ⟨t, a, w', hok, hfc, hfc.idx hI, hsame, ?_⟩
+  intro hne hbits hto
+  subst hto
+  -- the old table would belong to the new archetype, whose mask differs
+  have harch : (w.tbl t).arch = a := by rw [← (hfc.rows t hold).2.2.2.1]; exact hfc.tblArch
+  have halt0 : a < w.archetypes.length := by rw [← harch]; exact alt_of_get hAold
+  have hm : add.foldl Mask.set startMask = startMask := by
+    rw [← hfc.archMask, hfc.masks a halt0, hstart, harch]
+  cases add with
+  | nil => exact hne rfl
+  | cons c rest =>
+    have h1 : (List.foldl Mask.set startMask (c :: rest)).get c = true := by
+      rw [Mask.get_ofList_foldl]
+      simp [hbits c List.mem_cons_self]
+    rw [hm, hnew c List.mem_cons_self] at h1
+    cases h1
+
+/-- **3 (creation)**: `findOrCreateTableAdd 0 Mask.empty ids []` as used by `newEntity` for
+    distinct registered non-relation components. -/
+theorem SInv.findOrCreateTableAdd_spec_new {w : World} (h : SInv w) (hI : IdxInv w)
+    {add : List Comp} (hnd : add.Nodup) (hreg : ∀ (c : Comp), c ∈ add → c < w.kinds.length)
+    (hnr : ∀ (c : Comp), c ∈ add → (w.kinds.getD c {}).isRel = false) :
+    ∃ (t a : Nat) (w' : World),
+      World.findOrCreateTableAdd 0 Mask.empty add [] w = .ok (t, a, Mask.ofList add) w' ∧
+      FoundOrCreated w w' (Mask.ofList add) t a ∧ IdxInv w' ∧
+      (∀ (t' : Nat), t' < w.tables.length → w'.tables[t']? = w.tables[t']?) ∧
+      (add ≠ [] → (∀ (c : Comp), c ∈ add → c < 256) → t ≠ 0) := by
+  obtain ⟨h0, h1, h2⟩ := h.root
+  have hnro : (w.arch (w.tbl 0).arch).hasRelations = false := by rw [h1]; exact h.root_noRel
+  exact h.findOrCreateTableAdd_spec hI h0 (by rw [h1, h2]) hnro hnd (fun c _ => Mask.get_empty c) hreg hnr
+
+/-! ## corollaries -/
+
+/-- `createTable` restores `SInv` when every other archetype is settled -/
+theorem CreatedTable.sinv {w w' : World} {a : Nat} {rels : List RelID} {t : Nat}
+    (ct : CreatedTable w w' a rels t) (hs : ∀ (b : Nat), b ≠ a → SettledAt w b) : SInv w' :=
+  { ct.sinvMid with
+    settled := fun b => by
+      by_cases hb : b = a
+      · subst hb; exact ct.settledA
+      · exact ct.settledOthers b hb (hs b hb) }
+
+/-- **2d on a settled world**: `createTable` for an existing archetype WITH relation columns
+    (the `setRelations` / `cleanupArchetypes` / exchange paths) keeps `SInv`. -/
+theorem SInv.createTable_rel {w w' : World} (h : SInv w) {a : Nat} {rels : List RelID} {t : Nat}
+    (ha : a < w.archetypes.length) (hr : (w.arch a).hasRelations = true)
+    (hok : World.createTable a rels w = .ok t w') : CreatedTable w w' a rels t ∧ SInv w' := by
+  have ct := h.toSInvMid.createTable ha (fun hf => by rw [hr] at hf; cases hf) hok
+  exact ⟨ct, ct.sinv fun b _ => h.settled b⟩
+
+/-- the relation index of every archetype only lists active tables -/
+theorem RInv.relIndexSound {w : World} (h : RInv w) {b : Nat} {B : Archetype}
+    (hB : w.archetypes[b]? = some B) : RelIndexSound B := (h b B hB).relIndexSound
+
+/-- **2e under `RInv`**: a table found by `getTable` is an active table of the archetype. -/
+theorem RInv.getTable_some_mem {w w' : World} (h : RInv w) {a : Nat} {rels : List RelID} {t : Nat}
+    (ha : a < w.archetypes.length) (hg : getTable a rels w = .ok (some t) w') :
+    t ∈ (w.arch a).tables.tables :=
+  World.getTable_some_mem hg fun _ => h.relIndexSound (aget_of_lt ha)
+
+/-- **3 (general form, on success) under `RInv`**: with the relation-index invariant the result
+    of `findOrCreateTableAdd` — for any `add` / `rels`, also with relation components — satisfies
+    `FoundOrCreated`, and `RInv` is preserved. -/
+theorem SInv.findOrCreateTableAdd_of_ok_rinv {w w' : World} (h : SInv w) (hR : RInv w) {oldT : Nat}
+    {startMask mask : Mask} {add : List Comp} {rels : List RelID} {t a : Nat}
+    (hstart : ∀ (c : Nat), startMask.get c = true → c < w.kinds.length)
+    (hreg : ∀ (c : Comp), c ∈ add → c < w.kinds.length)
+    (hok : World.findOrCreateTableAdd oldT startMask add rels w = .ok (t, a, mask) w') :
+    mask = add.foldl Mask.set startMask ∧ FoundOrCreated w w' mask t a ∧ RInv w' := by
+  obtain ⟨h1, h2⟩ := h.findOrCreateTableAdd_of_ok hstart hreg
+    (fun b B hB _ _ => hR.relIndexSound hB) hok
+  exact ⟨h1, h2, h2.rinv hR⟩
+
+/-- no two archetypes have the same component set -/
+theorem SInvMid.archetype_masks_unique {w : World} (h : SInvMid w) {a b : Nat}
+    (ha : a < w.archetypes.length) (hb : b < w.archetypes.length)
+    (hm : (w.arch a).mask = (w.arch b).mask) : a = b :=
+  h.maskUniq a b _ _ (aget_of_lt ha) (aget_of_lt hb) hm
+
+/-- … nor the same column list -/
+theorem SInvMid.archetype_comps_unique {w : World} (h : SInvMid w) {a b : Nat}
+    (ha : a < w.archetypes.length) (hb : b < w.archetypes.length)
+    (hc : (w.arch a).comps = (w.arch b).comps) : a = b := by
+  apply h.archetype_masks_unique ha hb
+  apply Mask.ext_get
+  intro c _
+  have h1 := h.mem_comps (aget_of_lt ha) c
+  have h2 := h.mem_comps (aget_of_lt hb) c
+  rw [hc] at h1
+  cases hx : (w.arch a).mask.get c <;> cases hy : (w.arch b).mask.get c <;> simp_all
+
+/-! ## totality of `createTable` (the cache part cannot fail under a cache hypothesis) -/
+
+namespace World
+
+/-- every relation a cached filter fixes names a component the filter requires (the typed API
+    checks this as `relNotInMask`); under it `cache.addTable` never hits `Matches`' nil
+    dereference -/
+def CacheRelsOK (w : World) : Prop :=
+  ∀ (e : CacheEntry), e ∈ w.cache.filters → ∀ (r : RelID), r ∈ e.rels → e.filter.mask.get r.comp = true
+
+theorem matchesRels_go_ne_none (T : Table) : ∀ (rels : List RelID),
+    (∀ (r : RelID), r ∈ rels → (T.colIdx r.comp).isSome = true) → Table.matchesRels.go T rels ≠ none
+  | [], _ => by simp [Table.matchesRels.go]
+  | r :: rest, h => by
+    have hr := h r List.mem_cons_self
+    cases hc : T.colIdx r.comp with
+    | none => rw [hc] at hr; cases hr
+    | some i =>
+      simp only [Table.matchesRels.go, hc]
+      split
+      · simp
+      · exact matchesRels_go_ne_none T rest fun r' hr' => h r' (List.mem_cons_of_mem _ hr')
+
+theorem matchesRels_ne_none (T : Table) (rels : List RelID)
+    (h : ∀ (r : RelID), r ∈ rels → (T.colIdx r.comp).isSome = true) : T.matchesRels rels ≠ none := by
+  unfold Table.matchesRels
+  split
+  · simp
+  · exact matchesRels_go_ne_none T rels h
+
+theorem foldl_ne_none_mem {α β : Type} {step : Option β → α → Option β} : ∀ (fs : List α),
+    (∀ (acc : β) (e : α), e ∈ fs → step (some acc) e ≠ none) →
+    ∀ (acc : β), fs.foldl step (some acc) ≠ none
+  | [], _, _ => by simp
+  | e :: rest, h, acc => by
+    rw [List.foldl_cons]
+    cases hs : step (some acc) e with
+    | none => exact absurd hs (h acc e List.mem_cons_self)
+    | some acc' =>
+      exact foldl_ne_none_mem rest (fun a x hx => h a x (List.mem_cons_of_mem _ hx)) acc'
+
+/-- `cache.addTable` succeeds for a table that has a column for every component of its
+    archetype's mask -/
+theorem cacheAddTable_total {w : World} (hc : CacheRelsOK w) (T : Table)
+    (hcol : ∀ (c : Comp), (w.arch T.arch).mask.get c = true → (T.colIdx c).isSome = true) :
+    ∃ (w' : World), w.cacheAddTable T = some w' := by
+  unfold cacheAddTable
+  simp only
+  split
+  · rename_i heq
+    refine absurd heq (foldl_ne_none_mem _ ?_ _)
+    intro acc e he
+    dsimp only
+    split
+    · simp
+    · rename_i hm
+      split
+      · simp
+      · have hne : T.matchesRels e.rels ≠ none := by
+          apply matchesRels_ne_none
+          intro r hr
+          apply hcol
+          have hm' : e.filter.matchesMask (w.arch T.arch).mask = true := by simpa using hm
+          rw [Filter.matchesMask_iff] at hm'
+          exact hm'.1 r.comp (hc e he r hr)
+        cases hmr : T.matchesRels e.rels with
+        | none => exact absurd hmr hne
+        | some b => cases b <;> simp
+  · exact ⟨_, rfl⟩
+
+end World
+
+theorem Table.colIdx_isSome_of_mem {T : Table} {c : Comp} (h : c ∈ T.ids) : (T.colIdx c).isSome = true := by
+  unfold Table.colIdx
+  simp only
+  rw [if_pos (List.idxOf_lt_length_of_mem h)]; rfl
+
+/-- **2d, totality**: when the arguments pass the three checks of `createTable` and the cached
+    filters are well-formed (`CacheRelsOK`), `createTable` succeeds (and `CreatedTable` holds). -/
+theorem SInvMid.createTable_total {w : World} (h : SInvMid w) (hc : CacheRelsOK w) {a : Nat}
+    {rels : List RelID} (ha : a < w.archetypes.length)
+    (hnr : (w.arch a).hasRelations = false → (w.arch a).tables.tables = [])
+    (h1 : (w.arch a).numRel ≤ rels.length)
+    (h2 : ∀ (r : RelID), r ∈ rels → ((w.arch a).colIdx r.comp).isSome = true)
+    (h3 : RelsValid w rels) :
+    ∃ (t : Nat) (w' : World), World.createTable a rels w = .ok t w' ∧ CreatedTable w w' a rels t := by
+  have hA := aget_of_lt ha
+  obtain ⟨A2, Tn, ta, _, _, _, _, _, e3, _⟩ := h.createTableS_added hA h2 h3 hnr
+  have hTn : (createTableS w a rels).1.tbl (createTableS w a rels).2 = Tn := tbl_of_get ta.tget_self
+  have hc' : CacheRelsOK (createTableS w a rels).1 := by
+    intro e he; rw [e3] at he; exact hc e he
+  obtain ⟨w', hw'⟩ := cacheAddTable_total hc' Tn (by
+    intro c hcm
+    rw [ta.tArch, ta.arch_self, ta.mask] at hcm
+    apply Table.colIdx_isSome_of_mem
+    rw [ta.tIds]
+    exact (h.mem_comps hA c).2 hcm)
+  have hok : World.createTable a rels w = .ok (createTableS w a rels).2 w' := by
+    rw [createTable_of_valid h1 h2 h3, ctFinish, hTn, hw']
+  exact ⟨_, w', hok, h.createTable ha hnr hok⟩
 
 end Ark
